@@ -14,9 +14,18 @@
 
   Strings are handled as `List Char`; the format has fixed width 29 in the supported domain
   (years 1000–9999: glibc's `%Y` does not pad smaller years, `datetime` stops at 9999).
-  The parser is the strict RFC-1123 grammar with case-insensitive names (as `strptime`); the
-  extra leniency of `strptime` (one-digit fields, runs of white space) is not modelled.
-  No Mathlib.
+  The parser accepts the RFC-1123 grammar with case-insensitive names (as `strptime`) in two
+  shapes: the canonical 29-character form, and the 28-character form whose day of month is ONE
+  digit (RFC 822/1123 `date = 1*2DIGIT month 2*4DIGIT`; CPython's `%d` is
+  `3[0-1]|[1-2]\d|0[1-9]|[1-9]| [1-9]`, so "Wed, 1 Jan 2020 08:05:09 GMT" converts).
+  OUTSIDE the model (measured on CPython 3.12, all of them ACCEPTED by `strptime`): a one-digit
+  hour / minute / second (`%H` = `2[0-3]|[0-1]\d|\d`, likewise `%M`, `%S`); any run of one or more
+  white-space characters (`\s+`, Unicode-aware: blank, TAB, LF, NBSP …) where the format has a
+  blank — after the comma, around the month name, before the hour and before `GMT`; non-ASCII
+  decimal digits where the pattern says `\d` (second digit of day / hour, both of minute…, the
+  year).  The year is exactly four digits in both (`%Y` = `\d\d\d\d`: "202", "20200" are
+  `ValueError`), there is no leading or trailing white space, and nothing but `GMT` (any case)
+  is a zone.  No Mathlib.
 -/
 import AcnModel.Calendar
 
@@ -156,10 +165,10 @@ def punctOk (c1 p1 p2 p3 p4 k1 k2 p5 g1 g2 g3 : Char) : Bool :=
   c1 == ',' && p1 == ' ' && p2 == ' ' && p3 == ' ' && p4 == ' ' && k1 == ':' && k2 == ':' &&
   p5 == ' ' && g1.toLower == 'g' && g2.toLower == 'm' && g3.toLower == 't'
 
-/-- `strptime(s, "%a, %d %b %Y %H:%M:%S GMT")` followed by `pytz.UTC.localize`: `none` is
-    `ValueError`.  The weekday name must be a weekday name but is not checked against the date
-    (neither does `strptime`). -/
-def parseChars : List Char → Option Instant
+/-- the canonical 29-character form: `strptime(s, "%a, %d %b %Y %H:%M:%S GMT")` followed by
+    `pytz.UTC.localize`: `none` is `ValueError`.  The weekday name must be a weekday name but is
+    not checked against the date (neither does `strptime`). -/
+def parseCanon : List Char → Option Instant
   | [w1, w2, w3, c1, p1, d1, d2, p2, m1, m2, m3, p3, y1, y2, y3, y4, p4, h1, h2, k1, i1, i2, k2,
      s1, s2, p5, g1, g2, g3] =>
     if punctOk c1 p1 p2 p3 p4 k1 k2 p5 g1 g2 g3 then
@@ -171,6 +180,22 @@ def parseChars : List Char → Option Instant
       | _, _, _, _, _, _, _ => none
     else none
   | _ => none
+
+/-- a 28-character stamp with the zero of a one-digit day of month put back
+    (`"Wed, 1 Jan …"` ↦ `"Wed, 01 Jan …"`) -/
+def padDay (l : List Char) : List Char := l.take 5 ++ '0' :: l.drop 5
+
+/-- `strptime(s, "%a, %d %b %Y %H:%M:%S GMT")` + `pytz.UTC.localize` on the two shapes of the model:
+    the canonical 29 characters, or 28 characters with a one-digit day of month (`%d` also matches
+    `[1-9]`; a lone `0` is day 0 and is refused like `00`).  `none` is `ValueError`. -/
+def parseChars (l : List Char) : Option Instant :=
+  if l.length = 28 then parseCanon (padDay l) else parseCanon l
+
+/-- `formatChars t` without the first digit of the day of month: for a day 01..09 the stamp an
+    un-padding server sends (`"Wed, 1 Jan 2020 08:05:09 GMT"`) -/
+def unpadChars (t : Instant) : List Char := (formatChars t).eraseIdx 5
+
+def formatUnpadded (t : Instant) : String := String.ofList (unpadChars t)
 
 def parseRfc1123 (s : String) : Option Instant := parseChars s.toList
 
